@@ -31,9 +31,9 @@ func init() {
 
 func runC04(c *engine.Ctx) {
 	r1 := c.Rule("R1", "result channels are closed in exactly one function, once each, after the table entry is deleted", 1)
-	r2 := c.Rule("R2", "traverser shut down before the closes; terminate is only called from the release handler or under state != Running", 3)
+	r2 := c.Rule("R2", "traverser shut down before the closes; terminate is only called from the release handler or under state != Running", 1)
 	r3 := c.Rule("R3", "a pending terminal error is sent before the channels are closed", 1)
-	r4 := c.Rule("R4", "cancel handler sends a cancel request to the request's peer first; cancel API passes client-cancelled; collector reports client-cancelled on context end", 3)
+	r4 := c.Rule("R4", "cancel handler sends a cancel request to the request's peer first; cancel API passes client-cancelled; collector reports client-cancelled on context end", 2)
 	r5 := c.Rule("R5", "status predicates: success/failure disjoint, AsError nil iff success (all defined codes); failure statuses cancel with Status().AsError()", 2)
 
 	m := loadMgr(c, r1, "requestmanager")
@@ -156,6 +156,28 @@ func runC04(c *engine.Ctx) {
 				"the request is terminated (channels closed) while its executor may be running: the executor then sends on a closed channel")
 		}
 	}
+	// R2c: the guard relies on state == Running meaning "an executor holds this request": Running is written only where the task is handed to the executor
+	emptyF := taskEmptyField(c, "requestmanager")
+	for _, s := range m.stateStores() {
+		if s.name != "Running" {
+			continue
+		}
+		f := s.st.Parent()
+		hands := false
+		if f.Signature.Results().Len() == 1 && emptyF != nil {
+			if st, ok := f.Signature.Results().At(0).Type().Underlying().(*types.Struct); ok {
+				for i := 0; i < st.NumFields(); i++ {
+					if st.Field(i) == emptyF {
+						hands = true
+					}
+				}
+			}
+		}
+		c.Decide(r2, engine.FuncName(f)+"|Running-means-executing", s.st.Pos(), hands,
+			"Running is recorded only where the request's task is handed to an executor",
+			"the request is marked Running where no executor takes it: a cancel arriving then waits for an executor that is not running, and the result channels are never closed")
+	}
+
 	// R3
 	var termSend ssa.Instruction
 	engine.Instrs(term, func(in ssa.Instruction) {
